@@ -285,7 +285,7 @@ fn do_step(w: &mut World, st: &Value) -> Result<StepRes, String> {
         "revert" => {
             let j = st.u("j") as usize;
             let (cp, _, cnt, _) = &w.cps[j - 1];
-            let cp = Checkpoint { index: cp.index };
+            let cp = Checkpoint { index: cp.index, pending: cp.pending };
             let cnt = *cnt;
             w.per.as_mut().ok_or("no perspective")?.revert(cp).map_err(e)?;
             w.per_ids.truncate(cnt);
